@@ -43,13 +43,15 @@ def candidates(rs_path, meta):
     return out
 
 
-def run(rs_path, meta, seed, limit, workdir, jobs=8):
+def run(rs_path, meta, seed, limit, workdir, jobs=8, baseline_diags=()):
     cands = candidates(rs_path, meta)
     rnd = random.Random(seed)
     rnd.shuffle(cands)
     cands = cands[:limit]
     src_lines = open(rs_path).read().split("\n")
     os.makedirs(workdir, exist_ok=True)
+    # failures that the unmutated file already has (known findings) do not count as rejecting a mutant
+    base = {(d["message"], tuple(sorted(sp["line_start"] for sp in d["spans"] if sp.get("primary")))) for d in baseline_diags}
 
     def one(i_c):
         i, c = i_c
@@ -57,10 +59,11 @@ def run(rs_path, meta, seed, limit, workdir, jobs=8):
         ls[c["line"] - 1] = c["text"]
         p = os.path.join(workdir, f"mutant_{i}.rs")
         open(p, "w").write("\n".join(ls))
-        r = verus_run.run(p, threads=2, multiple_errors=1)
+        r = verus_run.run(p, threads=2, multiple_errors=12)
         os.remove(p)
-        killed = (not r["json_ok"]) or r["errors"] > 0 or any(d["class"] != "undecided" for d in r["diagnostics"])
-        how = "obligation" if any(d["class"] == "obligation" for d in r["diagnostics"]) else ("compile" if killed else "survived")
+        new = [d for d in r["diagnostics"] if (d["message"], tuple(sorted(sp["line_start"] for sp in d["spans"] if sp.get("primary")))) not in base]
+        killed = (not r["json_ok"]) or any(d["class"] != "undecided" for d in new)
+        how = "obligation" if any(d["class"] == "obligation" for d in new) else ("compile" if killed else "survived")
         return dict(c, killed=killed, how=how)
     with ThreadPoolExecutor(max_workers=jobs) as ex:
         res = list(ex.map(one, enumerate(cands)))
